@@ -439,6 +439,111 @@ def _handler_call_caught(fn, callee: str, where: str) -> bool:
     return all(found)
 
 
+def _len_ge(e):
+    """`len(data) >= K` / `len(data) > K` -> K resp. K+1, else None"""
+    if isinstance(e, ast.Compare) and len(e.ops) == 1 and ast.unparse(e.left) == "len(data)":
+        if isinstance(e.ops[0], ast.GtE):
+            return _int(e.comparators[0])
+        if isinstance(e.ops[0], ast.Gt):
+            return _int(e.comparators[0]) + 1
+    return None
+
+
+def _exit_constants() -> dict:
+    """
+    DataChecker (ipv8/messaging/anonymization/exit_socket.py), read as guarded big-endian reads:
+      could_be_utp:          `if len(data) < N: return False`, then unpack_from("!BB", data)        -> utp_min, utp_read
+      could_be_udp_tracker:  `bool((len(data) >= A and 0 <= unpack_from("!I", data, a)[0] <= 3)
+                                    or (len(data) >= B and 0 <= unpack_from("!I", data, b)[0] <= 3))` -> [(A, a), (B, b)]
+      could_be_dht:          slices and len only (cannot raise)
+      could_be_ipv8:         `len(data) >= K and data[0:1] == b"\x00" and data[1:2] in [...]`
+    and TunnelExitSocket.datagram_received: `if self.is_allowed(data):` outside, `self.tunnel_data(...)` inside try/except
+    Exception.  Any other shape raises TranslatorError.
+    """
+    tree = ast.parse((REPO / "ipv8/messaging/anonymization/exit_socket.py").read_text())
+    out: dict = {}
+    fn = _func(tree, "DataChecker", "could_be_utp")
+    body = [n for n in fn.body if not (isinstance(n, ast.Expr) and isinstance(n.value, ast.Constant))]
+    g = body[0] if body else None
+    if not (isinstance(g, ast.If) and isinstance(g.test, ast.Compare) and ast.unparse(g.test.left) == "len(data)"
+            and isinstance(g.test.ops[0], ast.Lt) and ast.unparse(g.body[0]) == "return False"):
+        raise TranslatorError("DataChecker.could_be_utp: leading `if len(data) < N: return False` not found")
+    out["utp_min"] = _int(g.test.comparators[0])
+    reads = [n for n in ast.walk(fn) if isinstance(n, ast.Call) and ast.unparse(n.func) == "unpack_from"]
+    if len(reads) != 1 or ast.unparse(reads[0].args[0]) not in ("'!BB'", "'>BB'") or len(reads[0].args) != 2 \
+            or any(n.lineno < g.lineno for n in reads):
+        raise TranslatorError("DataChecker.could_be_utp: expected a single unpack_from('!BB', data) after the guard")
+    out["utp_read"] = 2
+    fn = _func(tree, "DataChecker", "could_be_udp_tracker")
+    body = [n for n in fn.body if not (isinstance(n, ast.Expr) and isinstance(n.value, ast.Constant))]
+    if len(body) != 1 or not isinstance(body[0], ast.Return):
+        raise TranslatorError("DataChecker.could_be_udp_tracker: body is not a single return statement")
+    e = body[0].value
+    if isinstance(e, ast.Call) and ast.unparse(e.func) == "bool" and len(e.args) == 1:
+        e = e.args[0]
+    if not (isinstance(e, ast.BoolOp) and isinstance(e.op, ast.Or)):
+        raise TranslatorError("DataChecker.could_be_udp_tracker: expected `<clause> or <clause>`")
+    clauses = []
+    for cl in e.values:
+        if not (isinstance(cl, ast.BoolOp) and isinstance(cl.op, ast.And) and len(cl.values) == 2):
+            raise TranslatorError(f"DataChecker.could_be_udp_tracker: clause {ast.unparse(cl)} outside the subset")
+        k = _len_ge(cl.values[0])
+        cmp_ = cl.values[1]
+        if k is None or not (isinstance(cmp_, ast.Compare) and len(cmp_.ops) == 2 and _int(cmp_.left) == 0
+                             and all(isinstance(o, ast.LtE) for o in cmp_.ops) and isinstance(cmp_.comparators[0], ast.Subscript)):
+            raise TranslatorError(f"DataChecker.could_be_udp_tracker: clause {ast.unparse(cl)} outside the subset")
+        call = cmp_.comparators[0].value
+        if not (isinstance(call, ast.Call) and ast.unparse(call.func) == "unpack_from" and len(call.args) == 3
+                and ast.unparse(call.args[0]) in ("'!I'", "'>I'") and ast.unparse(call.args[1]) == "data"):
+            raise TranslatorError(f"DataChecker.could_be_udp_tracker: read {ast.unparse(cmp_)} outside the subset")
+        clauses.append((k, _int(call.args[2]), _int(cmp_.comparators[1])))
+    if len(clauses) != 2:
+        raise TranslatorError("DataChecker.could_be_udp_tracker: expected two clauses")
+    out["tracker"] = clauses
+    for name in ("could_be_dht", "could_be_ipv8"):
+        fn = _func(tree, "DataChecker", name)
+        for n in ast.walk(fn):
+            if isinstance(n, ast.Call) and ast.unparse(n.func) not in ("len",):
+                raise TranslatorError(f"DataChecker.{name}: call {ast.unparse(n)} outside the subset (slices/len only)")
+            if isinstance(n, ast.Subscript) and not isinstance(n.slice, ast.Slice):
+                raise TranslatorError(f"DataChecker.{name}: index {ast.unparse(n)} outside the subset (slices only)")
+    fn = _func(tree, "DataChecker", "could_be_ipv8")
+    ks = [k for k in (_len_ge(n) for n in ast.walk(fn)) if k is not None]
+    if len(ks) != 1:
+        raise TranslatorError("DataChecker.could_be_ipv8: length test not found")
+    out["ipv8_min"] = ks[0]
+    fn = _func(tree, "DataChecker", "could_be_bt")
+    names = [ast.unparse(n.func) for n in ast.walk(fn) if isinstance(n, ast.Call)]
+    if sorted(names) != sorted(["DataChecker.could_be_utp", "DataChecker.could_be_udp_tracker", "DataChecker.could_be_dht"]):
+        raise TranslatorError("DataChecker.could_be_bt: not the disjunction of utp / udp_tracker / dht")
+    fn = _func(tree, "TunnelExitSocket", "datagram_received")
+    out["allowed_protected"] = _handler_call_caught(fn, "self.is_allowed", "TunnelExitSocket.datagram_received")
+    out["tunnel_protected"] = _handler_call_caught(fn, "self.tunnel_data", "TunnelExitSocket.datagram_received")
+    return out
+
+
+def check_transport_classes():
+    """every class of the package that asyncio calls with received datagrams must be one the harness drives"""
+    import asyncio
+    import inspect
+    import sys as _sys
+    import_all()
+    known = {"ipv8.messaging.interfaces.udp.endpoint.UDPEndpoint", "ipv8.messaging.interfaces.udp.endpoint.UDPv6Endpoint",
+             "ipv8.messaging.anonymization.exit_socket.TunnelProtocol",
+             "ipv8.bootstrapping.udpbroadcast.bootstrapper.BroadcastBootstrapEndpoint"}
+    found = set()
+    for mname, mod in list(_sys.modules.items()):
+        if not mname.startswith("ipv8.") or mname.startswith(SKIP_MODULES):
+            continue
+        for _, cls in inspect.getmembers(mod, inspect.isclass):
+            if cls.__module__ == mname and issubclass(cls, (asyncio.DatagramProtocol, asyncio.Protocol)):
+                found.add(f"{mname}.{cls.__name__}")
+    unknown = sorted(found - known)
+    if unknown:
+        raise TranslatorError(f"network-facing protocol classes the check does not drive: {unknown}")
+    return sorted(found)
+
+
 def ast_constants() -> dict:
     c: dict = {}
     tree = ast.parse((REPO / "ipv8/community.py").read_text())
@@ -557,6 +662,8 @@ def ast_constants() -> dict:
                         and any(isinstance(x, ast.Break) for x in n.body):
                     stuck = True
     c["snap"] = {"catch": catch, "stuck": stuck}
+    # exit sockets: DataChecker byte predicates and TunnelExitSocket.datagram_received / is_allowed
+    c["exit"] = _exit_constants()
     # Network.get_verified_by_address runs in Community.on_packet before the prefix gate and outside the try:
     # are all its dict accesses of the non-raising kind?  (subscript loads on self.<dict> and one-argument .pop raise)
     tree = ast.parse((REPO / "ipv8/peerdiscovery/network.py").read_text())
@@ -596,6 +703,7 @@ def check_listener_classes():
 
 def live_constants() -> dict:
     check_listener_classes()
+    check_transport_classes()
     from ipv8.messaging.anonymization.payload import NO_CRYPTO_PACKETS, CellPayload
     from ipv8.messaging.interfaces.endpoint import Endpoint
 
@@ -691,6 +799,14 @@ def translate(t: dict | None = None) -> str:
         "/-- Network.load_snapshot: entry decode inside try/except Exception; `offset <= previous_offset` → break -/",
         f"def snapCatchAll : Bool := {b(a['snap']['catch'])}",
         f"def snapStuckBreak : Bool := {b(a['snap']['stuck'])}",
+        "/-- exit sockets: DataChecker guards (minimum length, read offset) and the try/except shape of",
+        "    TunnelExitSocket.datagram_received -/",
+        f"def utpMinLen : Nat := {a['exit']['utp_min']}",
+        f"def utpRead : Nat := {a['exit']['utp_read']}",
+        f"def trackerClauses : List (Nat × Nat × Nat) := [{', '.join(f'({k}, {o}, {m})' for k, o, m in a['exit']['tracker'])}]",
+        f"def ipv8MinLen : Nat := {a['exit']['ipv8_min']}",
+        f"def exitAllowedProtected : Bool := {b(a['exit']['allowed_protected'])}",
+        f"def exitTunnelProtected : Bool := {b(a['exit']['tunnel_protected'])}",
         "/-- Network.get_verified_by_address: every dict access is of the non-raising kind (.get / .pop(k, d) / in) -/",
         f"def lookupDictSafe : Bool := {b(a['lookup']['safe'])}",
         "",
